@@ -138,8 +138,8 @@ def get_observer_look(sat_lon, sat_lat, sat_alt, utc_time, lon, lat, alt):
 
     top_z_divided_by_rg_ = top_z / rg_
 
-    # Due to rounding top_z can be larger than rg_ (when el_ ~ 90).
-    top_z_divided_by_rg_ = top_z_divided_by_rg_.clip(max=1)
+    # Due to rounding abs(top_z) can be larger than rg_ (when el_ ~ +/-90).
+    top_z_divided_by_rg_ = top_z_divided_by_rg_.clip(min=-1, max=1)
     el_ = np.arcsin(top_z_divided_by_rg_)
 
     return np.rad2deg(az_), np.rad2deg(el_)
@@ -285,13 +285,13 @@ class Orbital(object):
         top_z = cos_lat * cos_theta * rx + \
             cos_lat * sin_theta * ry + sin_lat * rz
 
-        az_ = np.arctan(-top_e / top_s)
-
-        az_ = np.where(top_s > 0, az_ + np.pi, az_)
-        az_ = np.where(az_ < 0, az_ + 2 * np.pi, az_)
+        # Azimuth is undefined when elevation is 90 degrees, 180 (pi) will be returned.
+        az_ = np.arctan2(-top_e, top_s) + np.pi
+        az_ = np.mod(az_, 2 * np.pi)
 
         rg_ = np.sqrt(rx * rx + ry * ry + rz * rz)
-        el_ = np.arcsin(top_z / rg_)
+        # Due to rounding abs(top_z) can be larger than rg_ (when el_ ~ +/-90).
+        el_ = np.arcsin(np.clip(top_z / rg_, -1, 1))
 
         return np.rad2deg(az_), np.rad2deg(el_)
 
